@@ -99,7 +99,9 @@ def check_reads(ctx, keyseq, paths, results, with_contracts=False):
                 bad = ("destroyed-set", {"real": o["destroyed"], "model": to["destroyed"]})
             elif act["name"] == "DeployRefused" and o["res"] != "refused":
                 bad = ("deploy-not-refused", {"contract": act.get("c")})
-            elif act["name"] != "DeployRefused" and o["res"] not in ("ok", "init"):
+            elif act["name"] == "PutRefused" and o["res"] != "refused":
+                bad = ("write-not-refused", {"contract": act.get("c"), "key": act.get("k")})
+            elif act["name"] not in ("DeployRefused", "PutRefused") and o["res"] not in ("ok", "init"):
                 bad = ("unexpected-result", {"res": o["res"]})
         if bad:
             ctx.violation("%s:%s" % (act["name"], bad[0]), bad[1], replay_prefix(paths, pi, si))
